@@ -89,6 +89,7 @@ type State struct {
 	decisions []int // all choices made on this path (for samples)
 	inited  map[*ssa.Package]bool
 	mutexes int
+	formats map[string]StrV
 }
 
 type Violation struct {
@@ -237,6 +238,12 @@ func (st *State) clone() *State {
 	n.pools = make(map[int][]Value, len(st.pools))
 	for k, v := range st.pools {
 		n.pools[k] = append([]Value(nil), v...)
+	}
+	if st.formats != nil {
+		n.formats = make(map[string]StrV, len(st.formats))
+		for k, v := range st.formats {
+			n.formats[k] = v
+		}
 	}
 	n.inited = make(map[*ssa.Package]bool, len(st.inited))
 	for k, v := range st.inited {
